@@ -327,15 +327,25 @@ Section Reject.
 Variable T : tables.
 Variables LATEST defref : N.
 
-Theorem load_parsed_reject_residue m filename root st w w' :
+(* the stages of a load rejected with InvalidFileMerge, as equations *)
+Lemma load_parsed_reject_inv m filename root st w w' :
   load_parsed T LATEST defref m filename root st w = Val (ER InvalidFileMerge, w') ->
-  Residue m (N.of_nat (List.length (w_files w))) (mkFile m filename (Parser.p_version st) (Parser.p_standalone st)) w w'.
+  let fid := N.of_nat (List.length (w_files w)) in
+  let fl := mkFile m filename (Parser.p_version st) (Parser.p_standalone st) in
+  exists t w1 x wM x1 o wR keep wK,
+    install PNone root w = Val (OK t, w1) /\
+    let w1' := mkWorld (w_nodes w1) (w_next w1) (w_files w1 ++ [fl]) (w_models w1) in
+    nth_opt (w_models w1') (N.to_nat m) = Some x /\ is_empty (m_files x) = false /\
+    merge_file_data T LATEST defref m (it_id t) fid w1' = Val (ER InvalidFileMerge, wM) /\
+    nth_opt (w_models wM) (N.to_nat m) = Some x1 /\
+    wtry (e_remove_from_file T (m_root x1) fid) wM = Val (o, wR) /\
+    kill_unreachable (w_next w) keep wR = Val (OK tt, wK) /\
+    drop_file fid wK = Val (OK tt, w').
 Proof.
-  unfold load_parsed. intros H.
+  intros H fid fl. unfold load_parsed in H.
   apply wbind_inv in H as [(w0 & w0' & H0 & H) | (e' & H0 & _)]; [|apply wget_inv in H0 as ([=] & _)].
   apply wget_inv in H0 as (E0 & E0'). injection E0 as E0. subst w0 w0'.
   apply wbind_inv in H as [(t & w1 & H1 & H) | (e' & H1 & _)]; [|exfalso; eapply (errs_install (fun _ => False)); eauto].
-  pose proof (above_install (w_next w) _ _ _ _ _ (N.le_refl _) H1) as A1.
   apply wbind_inv in H as [(w1' & w1'' & H2 & H) | (e' & H2 & _)]; [|apply wget_inv in H2 as ([=] & _)].
   apply wget_inv in H2 as (E2 & E2'). injection E2 as E2. subst w1' w1''.
   apply wbind_inv in H as [(x0 & w2 & H3 & H) | (e' & H3 & _)]; [|apply get_model_inv in H3 as (? & _ & [=] & _)].
@@ -346,12 +356,10 @@ Proof.
   { apply wbind_inv in H as [(u & w4 & H5 & H) | (e' & H5 & _)]; [|unfold kill_unreachable in H5; discriminate].
     apply wfail_inv in H as ([=] & _). }
   apply wbind_inv in H as [(u & w4 & H5 & H) | (e' & H5 & _)]; [|unfold wput in H5; discriminate].
-  unfold wput in H5. injection H5 as _ <-.
-  set (fid := N.of_nat (List.length (w_files w))) in *.
-  set (fl := mkFile m filename (Parser.p_version st) (Parser.p_standalone st)) in *.
+  unfold wput in H5. injection H5 as _ <-. fold fid in H. fold fl in H.
   set (w1' := mkWorld (w_nodes w1) (w_next w1) (w_files w1 ++ [fl]) (w_models w1)) in *.
   apply wbind_inv in H as [(x & w5 & H6 & H) | (e' & H6 & _)]; [|apply get_model_inv in H6 as (? & _ & [=] & _)].
-  apply get_model_inv in H6 as (x' & _ & _ & ->).
+  apply get_model_inv in H6 as (x' & Hx & [= <-] & ->).
   apply wbind_inv in H as [(r & w6 & H7 & H) | (e' & H7 & _)]; [|apply wcatch_inv in H7 as (? & _ & [=])].
   apply wcatch_inv in H7 as (r0 & H7 & [= ->]).
   apply wbind_inv in H as [(x3 & w7 & H8 & H) | (e' & H8 & _)]; [|apply get_model_inv in H8 as (? & _ & [=] & _)].
@@ -361,33 +369,44 @@ Proof.
   apply wbind_inv in H as [(keep & w9 & H10 & H) | (e' & H10 & _)]; [|eapply (errs_dfs_ids (fun _ => False)) in H10; destruct H10].
   apply ro_dfs_ids in H10. subst w9.
   apply wbind_inv in H as [(u2 & wK & H11 & H) | (e' & H11 & _)]; [|unfold kill_unreachable in H11; discriminate].
-  apply kill_unreachable_eff in H11 as (_ & HK).
+  assert (Eu2 : u2 = tt) by (destruct u2; reflexivity). subst u2.
   destruct r0 as [u0|e0]; [apply wret_inv in H as ([=] & _)|].
   apply wbind_inv in H as [(u1 & w11 & H12 & H13) | (e' & H12 & _)]; [|unfold drop_file in H12; discriminate].
+  assert (Eu1 : u1 = tt) by (destruct u1; reflexivity). subst u1.
   apply wfail_inv in H13 as ([= <-] & ->).
-  (* the stage: only the merge branch can fail, and with the error of merge_file_data after the rollback attempt *)
-  assert (HS : exists wM, WorldEff fid w1' wM /\ RemEff fid wM w6).
-  { apply wbind_inv in H7 as [(ua & wa & Ha & Hb) | (e' & Ha & [= <-])].
-    - exfalso. apply wbind_inv in Hb as [(u3 & wb & Hb1 & Hb2) | (e' & Hb1 & [= <-])];
-        [|eapply (errs_fill_identifiables (fun _ => False)); eauto].
-      apply wbind_inv in Hb2 as [(u4 & wc & Hc1 & Hc2) | (e' & Hc1 & [= <-])];
-        [|eapply (errs_fill_references (fun _ => False)); eauto].
-      eapply (errs_modify_model (fun _ => False)); eauto.
-    - destruct (is_empty (m_files x)).
-      + exfalso. revert Ha. apply (errs_bind (fun _ => False)); [apply errs_modify_node|intros _].
-        apply errs_bind; [apply errs_modify_node|intros _]. apply errs_modify_model.
-      + apply wbind_inv in Ha as [(mr & wM & Hm1 & Hm2) | (e' & Hm1 & _)]; [|apply wcatch_inv in Hm1 as (? & _ & [=])].
-        apply wcatch_inv in Hm1 as (r1 & Hm1 & [= ->]).
-        destruct r1 as [ub|e1]; [apply wret_inv in Hm2 as ([=] & _)|].
-        exists wM. split; [eapply merge_file_data_effects; eauto|].
-        apply wbind_inv in Hm2 as [(x1 & wd & Hd1 & Hd2) | (e' & Hd1 & _)]; [|apply get_model_inv in Hd1 as (? & _ & [=] & _)].
-        apply get_model_inv in Hd1 as (x1' & _ & _ & ->).
-        apply wbind_inv in Hd2 as [(o & we & He1 & He2) | (e' & He1 & _)]; [|apply wtry_inv in He1 as (? & _ & [=])].
-        apply wfail_inv in He2 as (_ & ->).
-        eapply (effR_try (RemEff fid)); [apply rem_e_remove_from_file|exact He1]. }
-  destruct HS as (wM & HM & HR).
-  exists w1, wM, w6, wK. split; [exact A1|]. split; [exact HM|]. split; [exact HR|]. split; [exact HK|].
-  eapply drop_file_eff; exact H12.
+  apply wbind_inv in H7 as [(ua & wa & Ha & Hb) | (e' & Ha & [= <-])].
+  { exfalso. apply wbind_inv in Hb as [(u3 & wb & Hb1 & Hb2) | (e' & Hb1 & [= <-])];
+      [|eapply (errs_fill_identifiables (fun _ => False)); eauto].
+    apply wbind_inv in Hb2 as [(u4 & wc & Hc1 & Hc2) | (e' & Hc1 & [= <-])];
+      [|eapply (errs_fill_references (fun _ => False)); eauto].
+    eapply (errs_modify_model (fun _ => False)); eauto. }
+  destruct (is_empty (m_files x)) eqn:Eemp.
+  { exfalso. revert Ha. apply (errs_bind (fun _ => False)); [apply errs_modify_node|intros _].
+    apply errs_bind; [apply errs_modify_node|intros _]. apply errs_modify_model. }
+  apply wbind_inv in Ha as [(mr & wM & Hm1 & Hm2) | (e' & Hm1 & _)]; [|apply wcatch_inv in Hm1 as (? & _ & [=])].
+  apply wcatch_inv in Hm1 as (r1 & Hm1 & [= ->]).
+  destruct r1 as [ub|e1]; [apply wret_inv in Hm2 as ([=] & _)|].
+  apply wbind_inv in Hm2 as [(x1 & wd & Hd1 & Hd2) | (e' & Hd1 & _)]; [|apply get_model_inv in Hd1 as (? & _ & [=] & _)].
+  apply get_model_inv in Hd1 as (x1' & Hx1 & [= <-] & ->).
+  apply wbind_inv in Hd2 as [(o & we & He1 & He2) | (e' & He1 & _)]; [|apply wtry_inv in He1 as (? & _ & [=])].
+  apply wfail_inv in He2 as ([= ->] & ->).
+  exists t, w1, x, wM, x1, (OK o), we, keep, wK. split; [exact H1|]. cbv zeta. fold w1'.
+  split; [exact Hx|]. split; [exact Eemp|]. split; [exact Hm1|]. split; [exact Hx1|]. split; [exact He1|].
+  split; [exact H11|exact H12].
+Qed.
+
+Theorem load_parsed_reject_residue m filename root st w w' :
+  load_parsed T LATEST defref m filename root st w = Val (ER InvalidFileMerge, w') ->
+  Residue m (N.of_nat (List.length (w_files w))) (mkFile m filename (Parser.p_version st) (Parser.p_standalone st)) w w'.
+Proof.
+  intros H. destruct (load_parsed_reject_inv m filename root st w w' H)
+    as (t & w1 & x & wM & x1 & o & wR & keep & wK & H1 & Hx & Eemp & Hm & Hx1 & Hr & Hk & Hd).
+  exists w1, wM, wR, wK.
+  split; [apply (above_install (w_next w) _ _ _ _ _ (N.le_refl _) H1)|].
+  split; [eapply merge_file_data_effects; eauto|].
+  split; [eapply (effR_try (RemEff _)); [apply rem_e_remove_from_file|exact Hr]|].
+  split; [apply kill_unreachable_eff in Hk as (_ & HK); exact HK|].
+  eapply drop_file_eff; exact Hd.
 Qed.
 
 End Reject.
